@@ -57,7 +57,8 @@ class FunctionInfo(object):
 
     @property
     def fid(self):
-        return "%s.%s" % (self.module, self.qualname)
+        # `home`: the module this symbol lived in on the pinned tree (dfv/home.py) when it has since moved -- rules keep addressing it by its old identifier
+        return "%s.%s" % (getattr(self, "home", None) or self.module, self.qualname)
 
     @property
     def all_params(self):
@@ -137,6 +138,22 @@ class Program(object):
                 raise AnalysisError("anchor module dfols/%s.py vanished" % name)
         for mi in self.modules.values():
             self._index_module(mi)
+        self._apply_home_table()
+
+    def _apply_home_table(self):
+        """A top-level function / class that has moved to another module (and left no namesake behind) keeps its pinned identifier."""
+        from .home import HOME
+        moved = False
+        for fi in list(self.functions.values()):
+            top = fi.qualname.split(".")[0]
+            want = HOME.get(top)
+            if want and want != fi.module:
+                there = self.modules.get(want)
+                if there is None or (top not in there.functions and top not in there.classes):
+                    fi.home = want
+                    moved = True
+        if moved:
+            self.functions = dict((fi.fid, fi) for fi in self.functions.values())
 
     def _index_module(self, mi):
         for node in ast.walk(mi.tree):
